@@ -1,11 +1,374 @@
-//! (stub) binding for this area — see DESIGN.md
-use crate::util::Args;
+//! Binding of spec/Segmentation.tla to ragc_core::segment::{split_at_splitters_with_size,
+//! split_at_splitters}.
+//!
+//! `trace-seg` drives the two real functions over generated (contig, k, splitter set) inputs
+//! and records what they returned as NDJSON: one `start` event (the input, k-mers as symbol
+//! sequences), one `seg` event per returned segment (data, front/back k-mer unpacked to
+//! symbols, MISSING as [99]) and one `end` event.  Nothing is decided here: TLC validates
+//! every case against Trace_Segmentation.tla.  The code below only generates inputs, projects
+//! u64 k-mers to symbol sequences and writes events.  `replay-seg` executes behaviours printed
+//! by the code-shaped model MC_SegScan.tla and reports (informational) whether the real code
+//! chose exactly the same boundaries.
+use crate::util::{self, Args};
 use anyhow::Result;
+use ragc_core::segment::{split_at_splitters, split_at_splitters_with_size, Segment, MISSING_KMER};
+use rand::rngs::StdRng;
+use rand::seq::SliceRandom;
+use rand::Rng;
+use serde_json::{json, Value};
+use std::collections::BTreeSet;
+use std::io::{BufRead, Write};
 
-/// Returns None when `cmd` is not one of this module's sub-commands.
 pub fn dispatch(cmd: &str, a: &Args) -> Option<Result<()>> {
-    let _ = a;
     match cmd {
+        "trace-seg" => Some(trace(a)),
+        "replay-seg" => Some(replay(a)),
         _ => None,
     }
+}
+
+/// Builds whatever set type the real API wants (AHashSet<u64>) without naming it.
+fn build_set<S: Default + Extend<u64>>(v: &[u64]) -> S {
+    let mut s = S::default();
+    s.extend(v.iter().copied());
+    s
+}
+
+/// Projection of a recorded k-mer: MISSING -> [99]; otherwise k symbols + "low bits are zero".
+fn proj_kmer(x: u64, k: usize) -> (Vec<u8>, bool) {
+    if x == MISSING_KMER {
+        (vec![99], true)
+    } else {
+        util::unpack(x, k as u32)
+    }
+}
+
+/// Input generation only: canonical form of a clean window, on symbols (lexicographic minimum
+/// of the window and its reverse complement).  Used to pick splitter sets that actually occur;
+/// whether a k-mer is a splitter occurrence is decided by TLC, not here.
+fn canon_syms(w: &[u8]) -> Vec<u8> {
+    let rc: Vec<u8> = w.iter().rev().map(|&s| 3 - s).collect();
+    if w <= &rc[..] {
+        w.to_vec()
+    } else {
+        rc
+    }
+}
+
+/// canonical k-mers of all clean windows, with the 1-based end position of each window
+fn clean_windows(c: &[u8], k: usize) -> Vec<(usize, Vec<u8>)> {
+    let mut out = vec![];
+    if k == 0 || c.len() < k {
+        return out;
+    }
+    let mut run = 0usize;
+    for (i, &b) in c.iter().enumerate() {
+        if b > 3 {
+            run = 0;
+        } else {
+            run += 1;
+            if run >= k {
+                out.push((i + 1, canon_syms(&c[i + 1 - k..=i])));
+            }
+        }
+    }
+    out
+}
+
+fn run_real(which: &str, contig: &Vec<u8>, spl: &[u64], k: usize, min_size: usize) -> std::result::Result<Vec<Segment>, String> {
+    let c = contig.clone();
+    let s: Vec<u64> = spl.to_vec();
+    let w = which.to_string();
+    util::catch(move || {
+        if w == "with_size" {
+            split_at_splitters_with_size(&c, &build_set(&s), k, min_size)
+        } else {
+            split_at_splitters(&c, &build_set(&s), k)
+        }
+    })
+}
+
+struct Writer {
+    out: std::io::BufWriter<std::fs::File>,
+    case: u64,
+    multi: u64,
+}
+
+impl Writer {
+    /// one case = one call of one real function
+    fn case(&mut self, tag: &str, contig: &Vec<u8>, k: usize, spl_syms: &[Vec<u8>], min_size: usize) -> Result<()> {
+        let packed: Vec<u64> = spl_syms.iter().map(|w| util::pack(w)).collect();
+        for which in ["with_size", "plain"] {
+            writeln!(
+                self.out,
+                "{}",
+                json!({"ev": "start", "case": self.case, "fn": which, "tag": tag, "k": k, "contig": contig,
+                       "splitters": spl_syms, "min_size": min_size})
+            )?;
+            self.case += 1;
+            match run_real(which, contig, &packed, k, min_size) {
+                Ok(segs) => {
+                    let n = segs.len();
+                    if n > 1 {
+                        self.multi += 1;
+                    }
+                    for (i, s) in segs.iter().enumerate() {
+                        let (f, z1) = proj_kmer(s.front_kmer, k);
+                        let (b, z2) = proj_kmer(s.back_kmer, k);
+                        writeln!(
+                            self.out,
+                            "{}",
+                            json!({"ev": "seg", "i": i, "last": i + 1 == n, "data": s.data, "front": f, "back": b,
+                                   "lowzero": z1 && z2, "fdir": s.front_kmer_is_dir, "bdir": s.back_kmer_is_dir})
+                        )?;
+                    }
+                    writeln!(self.out, "{}", json!({"ev": "end", "n": n}))?;
+                }
+                Err(p) => {
+                    writeln!(self.out, "{}", json!({"ev": "panic", "msg": p}))?;
+                }
+            }
+        }
+        Ok(())
+    }
+}
+
+/// all subsets of `items` (bitmask order); items.len() is small
+fn subsets(items: &[Vec<u8>]) -> Vec<Vec<Vec<u8>>> {
+    let n = items.len();
+    (0..(1usize << n))
+        .map(|m| (0..n).filter(|i| m >> i & 1 == 1).map(|i| items[i].clone()).collect())
+        .collect()
+}
+
+fn gen_contig(rng: &mut StdRng, len: usize, style: usize, k: usize) -> Vec<u8> {
+    // style 0: uniform ACGT; 1: ACGT + N (1%) ; 2: ACGT + N/IUPAC codes 4..15 (5%);
+    // 3: low complexity (homopolymer runs and short-period repeats: adjacent / overlapping
+    //    occurrences of the same k-mer); 4: repeats of one random unit of length ~k
+    let mut c: Vec<u8> = Vec::with_capacity(len);
+    match style {
+        3 => {
+            while c.len() < len {
+                let period = rng.gen_range(1..=3usize);
+                let unit: Vec<u8> = (0..period).map(|_| rng.gen_range(0..4)).collect();
+                let reps = rng.gen_range(1..=(2 * k + 4));
+                for r in 0..reps * period {
+                    c.push(unit[r % period]);
+                }
+                if rng.gen_bool(0.15) {
+                    c.push(rng.gen_range(4..16));
+                }
+            }
+            c.truncate(len);
+        }
+        4 => {
+            let ul = rng.gen_range(1..=(k + 2));
+            let unit: Vec<u8> = (0..ul).map(|_| rng.gen_range(0..4)).collect();
+            for i in 0..len {
+                c.push(if rng.gen_bool(0.02) { rng.gen_range(0..16) } else { unit[i % ul] });
+            }
+        }
+        _ => {
+            let p = [0.0, 0.01, 0.05][style.min(2)];
+            for _ in 0..len {
+                c.push(if rng.gen_bool(p) {
+                    if style == 1 { 4 } else { rng.gen_range(4..16) }
+                } else {
+                    rng.gen_range(0..4)
+                });
+            }
+        }
+    }
+    c
+}
+
+fn dedup(v: Vec<Vec<u8>>) -> Vec<Vec<u8>> {
+    let s: BTreeSet<Vec<u8>> = v.into_iter().collect();
+    s.into_iter().collect()
+}
+
+/// TRACE driver.
+///  --mode exhaustive --k K --maxlen L [--minlen M]: every contig over {A,C,G,T,N} of length M..L, every
+///      subset of its canonical k-mers (+ the empty set), both functions.
+///  --mode random --seed S --n N --maxlen L --kmin a --kmax b: random cases (see gen_contig and the
+///      splitter-set modes below), both functions.
+pub fn trace(a: &Args) -> Result<()> {
+    util::install_panic_hook();
+    let mode = a.opt("mode").unwrap_or("random").to_string();
+    let mut w = Writer { out: std::io::BufWriter::new(std::fs::File::create(a.get("out")?)?), case: 0, multi: 0 };
+    if mode == "exhaustive" {
+        let k: usize = a.num("k", 2);
+        let maxlen: usize = a.num("maxlen", 5);
+        let minlen: usize = a.num("minlen", 0);
+        let alpha: u64 = a.num("alpha", 5);
+        let part: u64 = a.num("part", 0);
+        let nparts: u64 = a.num("nparts", 1);
+        for len in minlen..=maxlen {
+            let total = alpha.pow(len as u32);
+            for x in 0..total {
+                // multiplicative hash: shards of equal size whatever the alphabet size
+                if (x.wrapping_mul(0x9E37_79B9_7F4A_7C15) >> 33) % nparts != part {
+                    continue;
+                }
+                let mut y = x;
+                let mut c = vec![0u8; len];
+                for i in (0..len).rev() {
+                    c[i] = (y % alpha) as u8;
+                    y /= alpha;
+                }
+                let occ = dedup(clean_windows(&c, k).into_iter().map(|(_, w)| w).collect());
+                for sp in subsets(&occ) {
+                    w.case("exh", &c, k, &sp, 0)?;
+                }
+            }
+        }
+    } else if mode == "inputs" {
+        // re-execution of stored inputs (replay of a reported case): one start-like record per line
+        let f = std::fs::File::open(a.get("in")?)?;
+        for line in std::io::BufReader::new(f).lines() {
+            let line = line?;
+            if line.trim().is_empty() {
+                continue;
+            }
+            let b: Value = serde_json::from_str(&line)?;
+            let k = b["k"].as_u64().unwrap() as usize;
+            let c = syms(&b["contig"]);
+            let sp: Vec<Vec<u8>> = b["splitters"].as_array().map(|x| x.iter().map(syms).collect()).unwrap_or_default();
+            let ms = b["min_size"].as_u64().unwrap_or(0) as usize;
+            w.case(b["tag"].as_str().unwrap_or("input"), &c, k, &sp, ms)?;
+        }
+    } else {
+        let seed: u64 = a.num("seed", 1);
+        let n: usize = a.num("n", 100);
+        let maxlen: usize = a.num("maxlen", 600);
+        let kmin: usize = a.num("kmin", 1);
+        let kmax: usize = a.num("kmax", 32);
+        let dense_cap: usize = a.num("densecap", 400);
+        let mut rng = util::rng(seed);
+        // every shard (offset) walks the k range in a different order and pairs each k with a different contig style
+        let offset: usize = a.num("offset", 0);
+        let span = kmax - kmin + 1;
+        for i in 0..n {
+            let k = kmin + (i * 13 + offset * 5) % span;
+            let style = (i / span + i + offset) % 5;
+            // length classes: around k, a few k, and up to maxlen
+            let len = match rng.gen_range(0..10) {
+                0 => rng.gen_range(0..=k),
+                1 => k + rng.gen_range(0..3),
+                2 => 2 * k + rng.gen_range(0..3),
+                3 | 4 => rng.gen_range(k..=(6 * k + 8)),
+                _ => rng.gen_range(k..=maxlen.max(k + 1)),
+            };
+            let c = gen_contig(&mut rng, len, style, k);
+            let wins = clean_windows(&c, k);
+            let all: Vec<Vec<u8>> = dedup(wins.iter().map(|(_, w)| w.clone()).collect());
+            let min_size = [0usize, 1, 20, 1000, 1 << 30][rng.gen_range(0..5)];
+            // splitter-set modes
+            let mut sets: Vec<(&str, Vec<Vec<u8>>)> = vec![("empty", vec![])];
+            if !all.is_empty() {
+                // sparse: a few k-mers of the contig
+                let cnt = 1 + wins.len() / 80;
+                let mut sp: Vec<Vec<u8>> = (0..cnt).map(|_| wins[rng.gen_range(0..wins.len())].1.clone()).collect();
+                // plus foreign k-mers and non-canonical (reverse complement) entries that must never match
+                for _ in 0..3 {
+                    let f: Vec<u8> = (0..k).map(|_| rng.gen_range(0..4)).collect();
+                    sp.push(canon_syms(&f));
+                }
+                let rcs: Vec<Vec<u8>> = sp.iter().map(|w| w.iter().rev().map(|&s| 3 - s).collect()).collect();
+                for r in rcs {
+                    if !(k == 32 && r.iter().all(|&s| s == 3)) && rng.gen_bool(0.3) {
+                        sp.push(r);
+                    }
+                }
+                sets.push(("sparse", dedup(sp)));
+                // dense: every k-mer of the contig (on a prefix-limited contig to bound TLC's work)
+                if c.len() <= dense_cap || i % 7 == 0 {
+                    sets.push(("dense", all.clone()));
+                } else {
+                    let mut half = all.clone();
+                    half.shuffle(&mut rng);
+                    half.truncate(1 + all.len() / 10);
+                    sets.push(("tenth", dedup(half)));
+                }
+                // tail: k-mers whose window ends inside the last k bases (incl. the very last window)
+                let tail: Vec<Vec<u8>> = wins.iter().filter(|(e, _)| e + k > c.len()).map(|(_, w)| w.clone()).collect();
+                if !tail.is_empty() {
+                    let mut t = vec![tail[tail.len() - 1].clone()];
+                    if rng.gen_bool(0.5) {
+                        t.push(tail[rng.gen_range(0..tail.len())].clone());
+                    }
+                    if rng.gen_bool(0.5) {
+                        t.push(wins[rng.gen_range(0..wins.len())].1.clone());
+                    }
+                    sets.push(("tail", dedup(t)));
+                }
+                // adjacent: the k-mers of 2..4 consecutive windows (overlapping occurrences)
+                let j = rng.gen_range(0..wins.len());
+                let adj: Vec<Vec<u8>> = wins[j..(j + rng.gen_range(2..5)).min(wins.len())].iter().map(|(_, w)| w.clone()).collect();
+                sets.push(("adjacent", dedup(adj)));
+                // head: the first window(s) of the contig
+                sets.push(("head", dedup(wins[..wins.len().min(2)].iter().map(|(_, w)| w.clone()).collect())));
+            } else {
+                let f: Vec<u8> = (0..k).map(|_| rng.gen_range(0..4)).collect();
+                sets.push(("foreign", vec![canon_syms(&f)]));
+            }
+            for (tag, sp) in sets {
+                w.case(tag, &c, k, &sp, min_size)?;
+            }
+        }
+    }
+    w.out.flush()?;
+    println!("{}", json!({"cases": w.case, "multi": w.multi}));
+    Ok(())
+}
+
+fn syms(v: &Value) -> Vec<u8> {
+    v.as_array().map(|a| a.iter().map(|x| x.as_u64().unwrap() as u8).collect()).unwrap_or_default()
+}
+
+/// REPLAY of the code-shaped model (MC_SegScan.tla): each line is one complete behaviour
+/// {contig,k,splitters,restart,segs:[{data,front,back}]}; the real function named by `restart`
+/// (TRUE = split_at_splitters_with_size, FALSE = split_at_splitters) is executed on the same
+/// input and the projected result compared field by field.
+pub fn replay(a: &Args) -> Result<()> {
+    util::install_panic_hook();
+    let f = std::fs::File::open(a.get("in")?)?;
+    let mut n = 0u64;
+    let mut steps = 0u64;
+    let mut fails: Vec<Value> = vec![];
+    for line in std::io::BufReader::new(f).lines() {
+        let line = line?;
+        if line.trim().is_empty() {
+            continue;
+        }
+        let b: Value = serde_json::from_str(&line)?;
+        n += 1;
+        let k = b["k"].as_u64().unwrap() as usize;
+        let contig = syms(&b["contig"]);
+        let spl: Vec<u64> = b["splitters"].as_array().map(|x| x.iter().map(|w| util::pack(&syms(w))).collect()).unwrap_or_default();
+        let which = if b["restart"].as_bool().unwrap() { "with_size" } else { "plain" };
+        let want: Vec<(Vec<u8>, Vec<u8>, Vec<u8>)> = b["segs"]
+            .as_array()
+            .map(|x| x.iter().map(|s| (syms(&s["data"]), syms(&s["front"]), syms(&s["back"]))).collect())
+            .unwrap_or_default();
+        steps += want.len() as u64;
+        match run_real(which, &contig, &spl, k, 0) {
+            Ok(segs) => {
+                let got: Vec<(Vec<u8>, Vec<u8>, Vec<u8>)> =
+                    segs.iter().map(|s| (s.data.clone(), proj_kmer(s.front_kmer, k).0, proj_kmer(s.back_kmer, k).0)).collect();
+                let z = segs.iter().all(|s| proj_kmer(s.front_kmer, k).1 && proj_kmer(s.back_kmer, k).1);
+                if got != want || !z {
+                    if fails.len() < 20 {
+                        fails.push(json!({"behaviour": b, "fn": which,
+                            "real": got.iter().map(|(d, f, bk)| json!({"data": d, "front": f, "back": bk})).collect::<Vec<_>>()}));
+                    } else {
+                        fails.push(json!({"fn": which}));
+                    }
+                }
+            }
+            Err(p) => fails.push(json!({"panic": p, "behaviour": b, "fn": which})),
+        }
+    }
+    println!("{}", json!({"behaviours": n, "steps": steps, "fails": fails}));
+    Ok(())
 }
